@@ -67,6 +67,10 @@ type DbgAgg struct {
 	Positions  int            `json:"positions"`         // distinct offsets seen
 	Clones     int            `json:"clones"`
 	Restores   int            `json:"restores"`
+	// PerKindMax: for each expression kind, the largest number of evaluations entered at one single
+	// offset, and that offset (under Memoize it cannot exceed the number of expressions of the kind)
+	PerKindMax map[string]int `json:"pkmax,omitempty"`
+	PerKindOff map[string]int `json:"pkoff,omitempty"`
 }
 
 // Result is what the child reports for one case.
@@ -206,7 +210,12 @@ func DigestDebug(path string, in []byte) *DbgAgg {
 		return nil
 	}
 	defer f.Close()
-	agg := &DbgAgg{Kinds: map[string]int{}}
+	agg := &DbgAgg{Kinds: map[string]int{}, PerKindMax: map[string]int{}, PerKindOff: map[string]int{}}
+	type ko struct {
+		kind string
+		off  int
+	}
+	perKO := map[ko]int{}
 	type fr struct {
 		name string
 		off  int
@@ -253,6 +262,13 @@ func DigestDebug(path string, in []byte) *DbgAgg {
 				kind = kind[:i]
 			}
 			agg.Kinds[kind]++
+			if strings.HasSuffix(kind, "Expr") || strings.HasSuffix(kind, "Matcher") {
+				perKO[ko{kind, o}]++
+				if n := perKO[ko{kind, o}]; n > agg.PerKindMax[kind] {
+					agg.PerKindMax[kind] = n
+					agg.PerKindOff[kind] = o
+				}
+			}
 			switch kind {
 			case "cloneState":
 				agg.Clones++
